@@ -21,3 +21,34 @@ package conan
 
 //@ func (*Version).Compare
 //@   comparator v ~ other                                 [C01]
+
+// ---- constructors: value xor error (C06); the fact is structural (untagged) because callers rely on it
+
+//@ func (*Ecosystem).NewVersion
+//@   ensures xor: (result0 != nil) == (result1 == nil)
+
+//@ func (*Ecosystem).NewVersionRange
+//@   ensures xor: (result0 != nil) == (result1 == nil)
+
+// ---- ranges (C02: a comparator holds exactly when Compare says so; groups joined by || are a union of intersections)
+
+//@ spec wfGroup(group []constraint) bool = forall i int :: 0 <= i && i < len(group) ==> group[i].version != nil
+//@ spec wfRange(r *VersionRange) bool = forall g int :: 0 <= g && g < len(r.orGroups) ==> wfGroup(r.orGroups[g])
+
+//@ func (*VersionRange).constraintSatisfied
+//@   requires c.version != nil
+//@   ensures op=: c.operator == "=" ==> result == (version.Compare(c.version) == 0)   [C02 C20]
+//@   ensures op!=: c.operator == "!=" ==> result == (version.Compare(c.version) != 0)   [C02 C20]
+//@   ensures op<: c.operator == "<" ==> result == (version.Compare(c.version) < 0)   [C02 C20]
+//@   ensures op<=: c.operator == "<=" ==> result == (version.Compare(c.version) <= 0)   [C02 C20]
+//@   ensures op>: c.operator == ">" ==> result == (version.Compare(c.version) > 0)   [C02 C20]
+//@   ensures op>=: c.operator == ">=" ==> result == (version.Compare(c.version) >= 0)   [C02 C20]
+//@   ensures other: c.operator != "=" && c.operator != "!=" && c.operator != "<" && c.operator != "<=" && c.operator != ">" && c.operator != ">=" && c.operator != "~" && c.operator != "^" ==> !result   [C02 C20]
+
+//@ func (*VersionRange).groupSatisfied
+//@   requires wfGroup(group)
+//@   ensures and: result == (forall i int :: 0 <= i && i < len(group) ==> r.constraintSatisfied(group[i], version))   [C02 C20]
+
+//@ func (*VersionRange).Contains
+//@   requires wfRange(r)
+//@   ensures or: result == (exists g int :: 0 <= g && g < len(r.orGroups) && r.groupSatisfied(r.orGroups[g], version))   [C02 C20]
